@@ -2,7 +2,8 @@
 From Coq Require Import List Arith Bool.
 Import ListNotations.
 From Heph Require Import Types.Syntax Types.Subst Types.Subtype Types.Decl Types.TableOk.
-From Heph Require Export Types.RefSound Types.Refuted Types.PFBase Types.SubtypePF Types.DeclPF.
+From Heph Require Export Types.RefSound Types.Refuted Types.PFBase Types.SubtypePF Types.DeclPF
+  Types.ExactPF Types.PathIrrel.
 
 Lemma nothing_bottom_lem : forall w f t, is_subtype w (S f) TNothing t = Rt.
 Proof. reflexivity. Qed.
